@@ -74,6 +74,7 @@ def run(ctx):
     ctx.rule("R02.5", "transformed decomposition by multiplication")
     ctx.rule("R02.6", "coupled-field invariant of Arc axes")
     ctx.rule("R02.7", "each Point field of a segment owns its own Point object")
+    ctx.rule("R02.9", "a transformed round shape is traversed the other way round exactly when the matrix reverses orientation (obligations shared with C06 R06.5)")
     subpath_space(ctx)
     coverage(ctx)
     orientation(ctx)
@@ -83,6 +84,9 @@ def run(ctx):
     transformed_decomposition(ctx)
     coupled(ctx)
     distinct_points(ctx)
+    from . import c06
+
+    c06.direction_by_determinant(ctx.renamed("R02.9"))
 
 
 def coverage(ctx):
